@@ -273,6 +273,7 @@ struct World {
     taken: Arc<Mutex<Vec<Obj>>>,
     ev_seen: usize,
     ops: Vec<i64>, // op kind per task
+    droppool_pending: bool,
 }
 
 impl World {
@@ -304,11 +305,12 @@ impl World {
             taken: Arc::new(Mutex::new(vec![])),
             ev_seen: 0,
             ops: vec![],
+            droppool_pending: false,
         }
     }
 
     fn pool_alive(&self) -> bool {
-        self.pool.lock().unwrap().is_some()
+        self.pool.lock().unwrap().is_some() && !self.droppool_pending
     }
 
     fn task_code(&self, t: usize, y: &Yield) -> i64 {
@@ -401,6 +403,14 @@ impl World {
         let taken = self.taken.clone();
         let log = self.log.clone();
         self.ops.push(op);
+        // the object leaves the caller's hands when the operation is issued
+        let mut in_hand: Option<Object<Mgr>> = match op {
+            OP_DROP | OP_TAKE => self.held.lock().unwrap().remove(&(a as usize)),
+            _ => None,
+        };
+        if op == OP_DROPPOOL {
+            self.droppool_pending = true;
+        }
         let _ = self.sched.spawn(move |ctx| {
             // every op works on its own clone of the pool handle, as a user task would
             let p = pool.lock().unwrap().clone();
@@ -438,14 +448,12 @@ impl World {
                 }
                 OP_DROP => {
                     drop(p);
-                    let obj = held.lock().unwrap().remove(&(a as usize)).unwrap();
-                    drop(obj);
+                    drop(in_hand.take().unwrap());
                     10
                 }
                 OP_TAKE => {
                     drop(p);
-                    let obj = held.lock().unwrap().remove(&(a as usize)).unwrap();
-                    let inner = Object::take(obj);
+                    let inner = Object::take(in_hand.take().unwrap());
                     log.ev([EV_REMOVED, inner.id as i64, ctx.id as i64, 0, 0]);
                     taken.lock().unwrap().push(inner);
                     10
@@ -859,7 +867,11 @@ fn parse_replay_line(line: &str) -> Option<(Cfg, Vec<Vec<i64>>)> {
 }
 
 fn main() {
-    std::panic::set_hook(Box::new(|_| {}));
+    std::panic::set_hook(Box::new(|info| {
+        if std::thread::current().name() == Some("main") {
+            eprintln!("harness panic: {}", info);
+        }
+    }));
     let args: Vec<String> = std::env::args().collect();
     match args.get(1).map(|s| s.as_str()) {
         Some("gen") => {
